@@ -360,6 +360,12 @@ class ImExButcherTableau:
             len(self.b_ex),
             len(self.b_im)}) > 1:
       raise ValueError('inconsistent Butcher tableau')
+    # Row `i` of `a_ex` (resp. `a_im`) holds the `i + 1` (resp. `i + 2`)
+    # coefficients of stage `i + 1`; extra entries would be silently ignored.
+    if any(len(row) != i + 1 for i, row in enumerate(self.a_ex)) or any(
+        len(row) != i + 2 for i, row in enumerate(self.a_im)
+    ):
+      raise ValueError('inconsistent Butcher tableau')
 
 
 def imex_runge_kutta(
